@@ -91,6 +91,20 @@ impl Params {
                 clone_drop: false,
                 eintr_after: 0,
             },
+            "C10" => Params {
+                keys: r.range(6, 14) as u32,
+                commits: r.range(2, 5) as u32,
+                readers: r.range(2, 3) as u32,
+                writers: 1,
+                rounds: r.range(2, 5) as u32,
+                rereads: 0,
+                grow: false,
+                openers: 0,
+                preexisting: true,
+                hold: false,
+                clone_drop: false,
+                eintr_after: 0,
+            },
             "C09" => Params {
                 keys: 3,
                 commits: r.range(1, 3) as u32,
@@ -346,6 +360,76 @@ fn scenario_c04(p: Params, path: String) {
     }
     drop(db);
     structure_check(&path, "sh-snapshot");
+}
+
+// ---------------------------------------------------------------------------------------------
+// C10 under threads: readers come and go on other threads while a writer commits; once every
+// reader is gone, freed pages must be reused again
+
+fn hwm_of(path: &str) -> Option<u64> {
+    let (buf, _) = simos::file_view(path)?;
+    crate::fsck::choose_header(&buf, 1024).map(|h| h.num_pages)
+}
+
+fn scenario_c10(p: Params, path: String) {
+    let db = match OpenOptions::new().pagesize(1024).open(&path) {
+        Ok(d) => d,
+        Err(e) => return report("sh-open", "open", format!("open: {}", e)),
+    };
+    let mut hs = Vec::new();
+    {
+        let db = db.clone();
+        let p = p.clone();
+        hs.push(shuttle::thread::spawn(move || {
+            for v in 1..=p.commits {
+                if let Err(e) = write_version(&db, &p, v) {
+                    return report("sh-writer", "commit", format!("writer, version {}: {}", v, e));
+                }
+            }
+        }));
+    }
+    for r in 0..p.readers {
+        let db = db.clone();
+        let p = p.clone();
+        hs.push(shuttle::thread::spawn(move || {
+            for _ in 0..p.rounds {
+                match db.tx(false) {
+                    Ok(tx) => {
+                        if let Err(e) = read_version(&tx, &p) {
+                            return report("sh-snapshot", "mixed", format!("reader {}: {}", r, e));
+                        }
+                        drop(tx);
+                    }
+                    Err(e) => return report("sh-reader", "tx", format!("reader {}: {}", r, e)),
+                }
+                yield_point();
+            }
+        }));
+    }
+    for h in hs {
+        if h.join().is_err() {
+            report("sh-panic", "join", "a thread panicked".into());
+        }
+    }
+    // no reader is open any more: a steady overwrite workload must reach a plateau
+    let mut marks = Vec::new();
+    for i in 0..10u32 {
+        if let Err(e) = write_version(&db, &p, p.commits + 1 + i) {
+            return report("sh-writer", "commit", format!("post-phase commit {}: {}", i, e));
+        }
+        marks.push(hwm_of(&path).unwrap_or(0));
+    }
+    let early = marks[..4].iter().cloned().max().unwrap_or(0);
+    let late = marks[4..].iter().cloned().max().unwrap_or(0);
+    if late > early + 6 {
+        report(
+            "sh-growth",
+            "after readers closed",
+            format!("all readers have closed, yet the high-water mark keeps growing under a steady overwrite workload: {:?}", marks),
+        );
+    } else {
+        probe("plateau_after_concurrent_readers");
+    }
 }
 
 // ---------------------------------------------------------------------------------------------
@@ -615,7 +699,7 @@ fn base_image(prop: &str, p: &Params, path: &str) -> Result<(), String> {
     // built through the real library with no scheduler attached
     let np = if p.grow { 64 } else { 2048 };
     let db = OpenOptions::new().pagesize(1024).num_pages(np).open(path).map_err(|e| e.to_string())?;
-    if prop == "C04" {
+    if prop == "C04" || prop == "C10" {
         // version 0, rewritten a few times so that the free list is populated and commits reuse pages
         for _ in 0..3 {
             write_version(&db, p, 0)?;
@@ -708,6 +792,7 @@ fn run(case: &Case, dir: &str) -> Verdict {
         runner.run(move || match prop2.as_str() {
             "C04" => scenario_c04(p2.clone(), path2.clone()),
             "C09" => scenario_c09(p2.clone(), path2.clone()),
+            "C10" => scenario_c10(p2.clone(), path2.clone()),
             _ => scenario_c13(p2.clone(), path2.clone()),
         })
     });
@@ -746,6 +831,7 @@ fn run(case: &Case, dir: &str) -> Verdict {
     // which oracles belong to which property
     let mine: &[&str] = match prop.as_str() {
         "C04" => &["sh-snapshot", "sh-panic", "sh-reader", "sh-writer"],
+        "C10" => &["sh-growth"],
         "C09" => &["sh-serial", "sh-lost-update", "sh-deadlock", "sh-liveness", "sh-panic", "sh-reader", "sh-writer"],
         _ => &["sh-exclusive", "sh-open", "sh-deadlock", "sh-liveness", "sh-panic"],
     };
